@@ -1,4 +1,5 @@
 """Rules added after the second round of independently seeded changes (TCP edges, timers, checksums, siblings)."""
+import re
 from ..framework import rule
 from ..core import *
 from ..lib import *
@@ -368,8 +369,10 @@ def r11_6(ctx):
         b = F.method(IC, nm)
         if b is None:
             continue
-        sites = [x[0] for x in b.calls() if (b.callee_name(x[1]) or '') in ("wire::udp::Repr::parse", "wire::tcp::Repr::<'a>::parse")]
-        ctx.need(len(sites) >= 2, f"quoted UDP/TCP header parsers in icmp::Socket::{nm}")
+        # where the quoted transport header is examined: the complete-datagram parsers or the port accessors
+        sites = [x[0] for x in b.calls() if (b.callee_name(x[1]) or '') in ("wire::udp::Repr::parse", "wire::tcp::Repr::<'a>::parse")
+                 or re.search(r'wire::(udp|tcp)::Packet::<.*>::src_port$', b.callee_name(x[1]) or '')]
+        ctx.need(len(sites) >= 2, f"quoted UDP/TCP header readers in icmp::Socket::{nm}")
 
         def dst_of_packet(n_):
             """the node reads dst_addr of argument 3 (the received IP header)"""
